@@ -429,3 +429,132 @@ brk("c09-mysql-join-spelling", ["C09"], "src/backend/mysql/query.rs",
     """            JoinType::FullOuterJoin => panic!("Mysql does not support FULL OUTER JOIN"),""",
     """            JoinType::FullOuterJoin => panic!("Mysql does not support FULL OUTER JOIN"),
             JoinType::Join => write!(sql, "STRAIGHT_JOIN").unwrap(),""", "C09.R2:agree:JoinType")
+
+
+# ---- grammar refinement (R1 of C07/C08/C13/C14) ----------------------------------------------------------------------
+brk("g-limit-before-order", ["C07", "C08"], "src/backend/query_builder.rs",
+    """        if !select.orders.is_empty() {
+            write!(sql, " ORDER BY ").unwrap();
+            select.orders.iter().fold(true, |first, expr| {
+                if !first {
+                    write!(sql, ", ").unwrap()
+                }
+                self.prepare_order_expr(expr, sql);
+                false
+            });
+        }
+
+        self.prepare_select_limit_offset(select, sql);
+""",
+    """        self.prepare_select_limit_offset(select, sql);
+
+        if !select.orders.is_empty() {
+            write!(sql, " ORDER BY ").unwrap();
+            select.orders.iter().fold(true, |first, expr| {
+                if !first {
+                    write!(sql, ", ").unwrap()
+                }
+                self.prepare_order_expr(expr, sql);
+                false
+            });
+        }
+""", ".R1:grammar:")
+brk("g-having-before-group", ["C07", "C08"], "src/backend/query_builder.rs",
+    """        self.prepare_condition(&select.r#where, "WHERE", sql);
+
+        if !select.groups.is_empty() {""",
+    """        self.prepare_condition(&select.r#where, "WHERE", sql);
+        self.prepare_condition(&select.having, "HAVING", sql);
+
+        if !select.groups.is_empty() {""", ".R1:grammar:")
+brk("g-window-after-limit", ["C07"], "src/backend/query_builder.rs",
+    """        if let Some((name, query)) = &select.window {
+            write!(sql, " WINDOW ").unwrap();
+            name.prepare(sql.as_writer(), self.quote());
+            write!(sql, " AS (").unwrap();
+            self.prepare_window_statement(query, sql);
+            write!(sql, ")").unwrap();
+        }
+
+        if !select.unions.is_empty() {""",
+    """        if !select.unions.is_empty() {""", "C07.R3", note="dropping the clause entirely is a field-consumption violation")
+brk("g-returning-before-where", ["C07"], "src/backend/query_builder.rs",
+    """        self.prepare_condition(&delete.r#where, "WHERE", sql);
+""",
+    """        self.prepare_returning(&delete.returning, sql);
+        self.prepare_condition(&delete.r#where, "WHERE", sql);
+""", "C07.R1:grammar:sqlite:delete")
+brk("g-sqlite-autoincrement-first", ["C13"], "src/backend/sqlite/table.rs",
+    """        if is_primary_key {
+            write!(sql, " ").unwrap();
+            self.prepare_column_spec(&ColumnSpec::PrimaryKey, sql);
+        }
+        if is_auto_increment {
+            write!(sql, " ").unwrap();
+            self.prepare_column_spec(&ColumnSpec::AutoIncrement, sql);
+        }""",
+    """        if is_auto_increment {
+            write!(sql, " ").unwrap();
+            self.prepare_column_spec(&ColumnSpec::AutoIncrement, sql);
+        }
+        if is_primary_key {
+            write!(sql, " ").unwrap();
+            self.prepare_column_spec(&ColumnSpec::PrimaryKey, sql);
+        }""", "C13.R1:grammar:sqlite:table_create")
+brk("g-sqlite-pk-in-place", ["C13"], "src/backend/sqlite/table.rs",
+    """            if let ColumnSpec::AutoIncrement = column_spec {
+                is_auto_increment = true;
+                continue;
+            }
+            if let ColumnSpec::Comment(_) = column_spec {""",
+    """            if let ColumnSpec::AutoIncrement = column_spec {
+                is_auto_increment = true;
+            }
+            if let ColumnSpec::Comment(_) = column_spec {""", "C13.R1:grammar:sqlite:table_create")
+brk("g-pg-alter-no-comma", ["C14"], "src/backend/postgres/table.rs",
+    """                        if !first && !no_clause {
+                            write!(sql, ", ").unwrap();
+                        }""",
+    """                        if !first && no_clause {
+                            write!(sql, ", ").unwrap();
+                        }""", "C14.R")
+brk("g-mysql-fk-add-missing", ["C14"], "src/backend/mysql/foreign_key.rs",
+    """        if mode != Mode::Creation {
+            write!(sql, "ADD ").unwrap();
+        }""",
+    """        if mode == Mode::TableAlter {
+            write!(sql, "ADD ").unwrap();
+        }""", "C14.R1:grammar:mysql:fk_create")
+brk("g-pg-index-if-not-exists-order", ["C14"], "src/backend/postgres/index.rs",
+    """        write!(sql, "INDEX ").unwrap();
+
+        if create.if_not_exists {
+            write!(sql, "IF NOT EXISTS ").unwrap();
+        }
+""",
+    """        if create.if_not_exists {
+            write!(sql, "IF NOT EXISTS ").unwrap();
+        }
+        write!(sql, "INDEX ").unwrap();
+""", "C14.R1:grammar:postgres:index_create")
+ben("g-benign-limit-helper-inline", ["C07", "C08"], "src/backend/query_builder.rs",
+    """        self.prepare_select_limit_offset(select, sql);
+
+        if let Some(lock) = &select.lock {""",
+    """        if let Some(limit) = &select.limit {
+            write!(sql, " LIMIT ").unwrap();
+            self.prepare_value(limit, sql);
+        }
+        if let Some(offset) = &select.offset {
+            write!(sql, " OFFSET ").unwrap();
+            self.prepare_value(offset, sql);
+        }
+
+        if let Some(lock) = &select.lock {""")
+ben("g-benign-pg-alter-match-guard", ["C14"], "src/backend/postgres/table.rs",
+    """                        if !first && !no_clause {
+                            write!(sql, ", ").unwrap();
+                        }""",
+    """                        if !(first || no_clause) {
+                            write!(sql, ", ").unwrap();
+                        }""")
